@@ -46,7 +46,10 @@ func needsFlt(rules ...RuleDesc) bool {
 }
 
 // renderGroups: the file, and for every rule (group, index) the first and last line of its statement
-func renderGroups(groups []GroupDesc) (string, [][][2]int) {
+func renderGroups(groups []GroupDesc) (string, [][][2]int) { return renderGroupsFrom(groups, 1) }
+
+// renderGroupsFrom: the groups are named g<first>, g<first+1>, ...
+func renderGroupsFrom(groups []GroupDesc, first int) (string, [][][2]int) {
 	var sb strings.Builder
 	sb.WriteString(dslPrelude)
 	var all []RuleDesc
@@ -59,7 +62,7 @@ func renderGroups(groups []GroupDesc) (string, [][][2]int) {
 	line := func() int { return strings.Count(sb.String(), "\n") + 1 }
 	spans := make([][][2]int, len(groups))
 	for gi, g := range groups {
-		fmt.Fprintf(&sb, "func g%d(m dsl.Matcher) {\n", gi+1)
+		fmt.Fprintf(&sb, "func g%d(m dsl.Matcher) {\n", gi+first)
 		if g.Pre != "" {
 			sb.WriteString("\t" + g.Pre + "\n")
 		}
